@@ -7,6 +7,7 @@ mod real;
 mod report;
 mod rng;
 mod tokprops;
+mod tokprops2;
 
 use report::{Ctx, Tier};
 use rng::Rng;
@@ -88,11 +89,14 @@ fn witnesses(ctx: &mut Ctx) {
 }
 
 fn run_case(ctx: &mut Ctx, rng: &mut Rng, stage: &str) {
-    let _ = stage;
     match ctx.prop.as_str() {
         "C01" => tokprops::c01_case(ctx, rng),
         "C02" => tokprops::c02_case(ctx, rng),
         "C03" => tokprops::c03_case(ctx, rng),
+        "C04" => tokprops2::c04_case(ctx, rng, stage),
+        "C06" => tokprops2::c06_case(ctx, rng),
+        "C08" => tokprops2::c08_case(ctx, rng),
+        "C12" => tokprops2::c12_case(ctx, rng),
         p => panic!("unknown property {p}"),
     }
 }
